@@ -119,7 +119,7 @@ class Evaluator:
     self.gen_state = {}    # id -> dict(items=[terms], pos=int) for summarised generators
     self.cond_log = []     # every traced two-armed conditional met: (term, function, node)
     self.leaf_override = {}  # tree term -> term standing for its generic leaf (lets a rule name 'the parameter' of a tree map)
-    self.vmap_log = []     # (vmapped wrapper term, args, result, caller): which calls ran under jax.vmap and with which axes
+    self.vmap_log = []     # (vmapped wrapper term, args, result, caller, kwargs): which calls ran under jax.vmap and with which axes
     self.loop_ctl = []     # per active loop: list of (cond, snapshot, kind) for undecided continue/break
     self._ids = 0
     self._active = []     # fqs being inlined (recursion guard)
@@ -1293,7 +1293,7 @@ class Evaluator:
       return self.call(f.args[0], pa, pk, n, scope)
     if op == 'vmapped':
       r = self.call(f.args[0], args, kwargs, n, scope)
-      self.vmap_log.append((f, tuple(args), r, self.cur_fq()))
+      self.vmap_log.append((f, tuple(args), r, self.cur_fq(), tuple(sorted(kwargs.items()))))
       return r
     if op == 'maybe':
       # _maybe(f)(x, ...) -> None if x is None else f(x, ...)
@@ -1321,6 +1321,8 @@ class Evaluator:
       args, kwargs = extsig.canonical(f.args[0], args, kwargs)
       if f.args[0] in _CMP_FUNCS and len(args) == 2 and not kwargs:
         return self.compare(_CMP_FUNCS[f.args[0]], args[0], args[1], n)      # jnp.greater_equal(a, b) is a >= b
+      if f.args[0] in ('jax.numpy.power', 'numpy.power', 'jax.lax.pow') and len(args) == 2 and not kwargs:
+        return T('bin', '**', args[0], args[1], loc=self._loc(n) if n is not None else None)     # jnp.power(a, b) is a ** b
       if f.args[0] in ('jax.numpy.where', 'jax.lax.select', 'numpy.where') and len(args) == 3 and not kwargs:
         c2, flipped = strip_negation(args[0])       # canonical polarity of array selects
         args = [c2, args[2], args[1]] if flipped else [c2, args[1], args[2]]
